@@ -55,6 +55,8 @@ def setup():
 
 
 def cases(rng, tier, shard, nshards, ctx):
+    if tier == 'thorough' and shard == nshards - 1:
+        yield dict(t='repotests')
     for _ in range(NPROG[tier] // nshards):
         yield R.gen_program(rng)
 
@@ -171,7 +173,42 @@ def _count(v):
     return 1
 
 
+def run_repo_tests(case, ctx):
+    """the repository's own DIP tests, run on a scratch copy with the post-condition recording on DIP.parse"""
+    import os, sys, json, shutil, tempfile, subprocess
+    repo = os.environ.get('VERIF_REPO', '/repo')
+    tmp = tempfile.mkdtemp(prefix='vt_c16_')
+    try:
+        shutil.copytree(os.path.join(repo, 'tests'), os.path.join(tmp, 'tests'))
+        if os.path.isdir(os.path.join(repo, 'docs')):
+            shutil.copytree(os.path.join(repo, 'docs'), os.path.join(tmp, 'docs'))
+        rec = os.path.join(tmp, 'record.json')
+        env = dict(os.environ, VT_C16_RECORD=rec)
+        try:
+            p = subprocess.run([sys.executable, '-m', 'pytest', '-q', '-p', 'no:cacheprovider', '-p',
+                                'vt.props.c16_pytest_plugin', 'tests/dip'], cwd=tmp, env=env, capture_output=True,
+                               text=True, timeout=900)
+        except subprocess.TimeoutExpired:
+            return outcome(skip='repository tests under contract did not finish (not a verdict)')
+        if not os.path.exists(rec):
+            return outcome(skip='repository tests under contract produced no record')
+        data = json.load(open(rec))
+    finally:
+        shutil.rmtree(tmp, ignore_errors=True)
+    devs = [dev('repo-tests:' + d['kind'], dict(node=d['node'], detail=d['detail']), known=d.get('known'))
+            for d in data['deviations']]
+    tail = (p.stdout or '').strip().splitlines()[-1:] or ['']
+    return outcome(classes=['repo-tests-under-contract'], nontrivial=True, fp='repo tests under contract', dev=devs,
+                   monitors={'parse_postcondition_evaluations': data['evaluations'], 'repo_tests_under_contract': 1},
+                   sample=dict(text='pytest tests/dip with the C16 post-condition on DIP.parse (record mode)',
+                               expected='no returned environment violates its constraints',
+                               observed=dict(postcondition_evaluations=data['evaluations'],
+                                             deviations=len(data['deviations']), pytest=tail[0])))
+
+
 def run_case(case, ctx):
+    if case.get('t') == 'repotests':
+        return run_repo_tests(case, ctx)
     text = R.render(case)
     exp, bad, allc = R.verdict(case)
     if exp == 'undecided':
@@ -182,6 +219,7 @@ def run_case(case, ctx):
     if obs[0] == 'env':
         mons['postcondition_node_checks'] = len(obs[1].nodes)
     leak = ctx['hyg'].check_restore()
+    mons['table_hygiene_checks'] = 1
     if leak:
         mons['table_leaks_restored'] = 1
     devs = judge(case, exp, bad, obs)
